@@ -154,12 +154,13 @@ class Ctx:
             "wall_s": round(wall, 2),
             "violations": len(self.violations),
         }
-        os.makedirs(os.path.join(VERIF, "evidence"), exist_ok=True)
-        tmp = os.path.join(VERIF, "evidence", ".%s.tmp%d" % (self.prop, os.getpid()))
+        evdir = "evidence" if not os.environ.get("VERIF_NO_EVIDENCE") else "replays/.mutant-evidence"
+        os.makedirs(os.path.join(VERIF, evdir), exist_ok=True)
+        tmp = os.path.join(VERIF, evdir, ".%s.tmp%d" % (self.prop, os.getpid()))
         with open(tmp, "w", encoding="utf-8") as f:
             json.dump(ev, f, indent=1, default=str, ensure_ascii=True)
             f.write("\n")
-        os.replace(tmp, os.path.join(VERIF, "evidence", self.prop + ".json"))
+        os.replace(tmp, os.path.join(VERIF, evdir, self.prop + ".json"))
         for key in sorted(self.known_seen):
             print("KNOWN-FINDING: property=%s key=%s %s" % (self.prop, key, self.known_seen[key]))
         for key in sorted(self.open_known):
